@@ -319,4 +319,101 @@ theorem inv_reachable {pr : Params} {s : Cfg} (h : Reachable pr s) : Inv pr s :=
   | init => exact inv_init pr
   | step _ hs ih => exact inv_step ih hs
 
+/-! ### progress (fixed program) -/
+
+theorem owner_none_of_not_holds {pr : Params} {s : Cfg} (h : Inv pr s) (hP : ¬ s.ppc.holds) (hC : ¬ s.cpc.holds) :
+    s.owner = none := by
+  cases ho : s.owner with
+  | none => rfl
+  | some t =>
+    cases t
+    · exact absurd (h.ownerP.mp ho) hP
+    · exact absurd (h.ownerC.mp ho) hC
+
+/-- In the FIXED program some producer/consumer step is enabled unless both threads are at rest. -/
+theorem progress_of_inv {pr : Params} {s : Cfg} (hfix : pr.variant = .fixed) (h : Inv pr s) :
+    (pStep pr s).isSome ∨ (pCancelStep s).isSome ∨ (cStep s).isSome ∨ (cCancelStep s).isSome ∨
+    (s.ppc.atRest ∧ s.cpc.atRest) := by
+  by_cases hP : s.ppc.holds
+  · left
+    unfold PPc.holds at hP
+    unfold pStep
+    rcases hP with hp | hp | hp | hp | hp | hp | hp | hp <;> simp only [hp, hfix] <;> (try split) <;> simp
+  by_cases hC : s.cpc.holds
+  · right; right; left
+    unfold CPc.holds at hC
+    unfold cStep
+    rcases hC with hc | hc | hc | hc | hc | hc <;> simp only [hc] <;> (try split) <;> simp
+  have ho := owner_none_of_not_holds h hP hC
+  -- facts about the consumer when it does not hold the mutex
+  have hcons : (cStep s).isSome ∨ s.cpc = .pullRecv ∨ s.cpc = .eosWait ∨ s.cpc = .done := by
+    cases hc : s.cpc <;> simp [hc, CPc.holds] at hC
+    case pullLock => left; simp [cStep, hc, ho]
+    case pullRecv => simp
+    case pullRelock => left; simp [cStep, hc, ho]
+    case process => left; simp only [cStep, hc]; split <;> simp
+    case eosWait => simp
+    case done => simp
+    case panicked => exact absurd hc h.noPanic
+  -- the consumer parked with a non-empty queue and the producer outside push: enabled
+  have hwake : s.cpc = .pullRecv → s.queue ≠ [] → s.ppc ≠ .pushSignal → (cStep s).isSome := by
+    intro hc hq hp
+    rcases h.cNoLost hc hq with hlt | ⟨hp', _⟩
+    · simp [cStep, hc, hlt]
+    · exact absurd hp' hp
+  -- eos pulled ⇒ producer is past push(nil)
+  have heosC : s.cpc = .eosWait → s.eosDone = true := by
+    intro hc
+    have h1 := h.curPulled _ (h.eosCW hc)
+    have h2 : Item.eos ∈ s.pushed := by rw [← h.fifo]; exact List.mem_append_left _ h1
+    rw [h.shape] at h2
+    exact eos_mem_history h2
+  cases hp : s.ppc <;> simp [hp, PPc.holds] at hP
+  case download => left; simp [pStep, hp]; split <;> simp
+  case pushLock => left; simp [pStep, hp, ho]
+  case afterPush => left; simp [pStep, hp]; split <;> simp
+  case waitLock => left; simp [pStep, hp, ho]
+  case waitRead => exact absurd hp (h.noRead hfix)
+  case waitRelock => left; simp [pStep, hp, ho]
+  case waitRecv =>
+    by_cases hlt : s.pCap < s.pullGen
+    · left; simp [pStep, hp, hlt]
+    by_cases hcan : s.cancelled = true
+    · right; left; simp [pCancelStep, hp, hcan]
+    right; right
+    rcases hcons with he | hc | hc | hc
+    · left; exact he
+    · left
+      have hlen : pr.n < s.queue.length := by
+        apply Nat.lt_of_not_le
+        intro hle
+        rcases h.pNoLost hfix hp hle with h1 | h1
+        · exact hlt h1
+        · simp [hc] at h1
+      have hq : s.queue ≠ [] := by intro hq; simp [hq] at hlen
+      exact hwake hc hq (by simp [hp])
+    · have := h.eosP (heosC hc)
+      simp [hp] at this
+    · exact absurd (h.doneC hc) hcan
+  case eosWait =>
+    rcases hcons with he | hc | hc | hc
+    · right; right; left; exact he
+    · right; right; left
+      have hd := h.eosW hp
+      have h2 : Item.eos ∈ s.pulled ++ s.queue := by
+        rw [h.fifo, h.shape, hd]; simp [history]
+      rcases List.mem_append.mp h2 with h3 | h3
+      · have := h.eosC h3
+        simp [hc] at this
+      · exact hwake hc (List.ne_nil_of_mem h3) (by simp [hp])
+    · right; right; right; right; simp [PPc.atRest, CPc.atRest, hc]
+    · right; right; right; right; simp [PPc.atRest, CPc.atRest, hc]
+  case done =>
+    have hcan := h.doneP hp
+    rcases hcons with he | hc | hc | hc
+    · right; right; left; exact he
+    · right; right; right; left; simp [cCancelStep, hc, hcan]
+    · right; right; right; right; simp [PPc.atRest, CPc.atRest, hc]
+    · right; right; right; right; simp [PPc.atRest, CPc.atRest, hc]
+
 end Hls.Queue
